@@ -93,7 +93,7 @@ func TestC06_Controlled(t *testing.T) {
 		n := rapid.IntRange(1, 40).Draw(t, "nactions")
 		var actions []vk.AsyncAction
 		for i := 0; i < n; i++ {
-			actions = append(actions, vk.AsyncAction{K: rapid.SampledFrom([]string{"ev", "raw", "step", "ev", "raw", "step", "ev", "dis", "raw0", "evl"}).Draw(t, "a")})
+			actions = append(actions, vk.AsyncAction{K: rapid.SampledFrom([]string{"ev", "raw", "step", "ev", "raw", "step", "ev", "dis", "raw0", "evl", "rawL"}).Draw(t, "a")})
 		}
 		vk.Sample(map[string]any{"setup": setup.String(), "actions": actionString(actions)})
 		check(t, setup, actions)
@@ -265,6 +265,67 @@ func TestC06_ConcurrentDiscard(t *testing.T) {
 	})
 }
 
+
+// TestC06_CallDuringStop: under the two discard policies a log call returns without waiting for the
+// appender - also a call that arrives while another goroutine is inside Stop, which waits for the
+// appender to take what is buffered. The appender stays stalled until the call has returned (the
+// buffer has room, so the policy's full-buffer path and the stop marker do not meet).
+func TestC06_CallDuringStop(t *testing.T) {
+	vk.Rule(rule)
+	rapid.Check(t, func(t *rapid.T) {
+		policy := rapid.SampledFrom([]string{"DiscardOldest", "Discard"}).Draw(t, "policy")
+		prefill := rapid.IntRange(1, 20).Draw(t, "buffered")
+		raw := rapid.Bool().Draw(t, "rawCall")
+		big := rapid.Bool().Draw(t, "bigPayload")
+		vk.ResetRecs()
+		gate := vk.NewGate()
+		vk.SetBehavior("g", gate)
+		g := &vk.RecAppender{AppenderBase: log.AppenderBase{Name: "g"}}
+		_ = g.Start()
+		all := log.LevelRange{MinLevel: log.NoneLevel, MaxLevel: log.MaxLevel}
+		pol := map[string]log.BufferFullPolicy{"Discard": log.BufferFullPolicyDiscard, "DiscardOldest": log.BufferFullPolicyDiscardOldest}[policy]
+		l := &log.AsyncLogger{LoggerBase: log.LoggerBase{Name: "cs", Level: all}, AppenderRefs: log.AppenderRefs{AppenderRefs: []*log.AppenderRef{{Appender: g, Level: all}}}, BufferSize: 100, BufferFullPolicy: pol}
+		if err := l.Start(); err != nil {
+			t.Fatalf("VERIF-INCONCLUSIVE C06: %v", err)
+		}
+		for i := 0; i < prefill; i++ {
+			l.Write([]byte(fmt.Sprintf("id=%d\n", i)))
+		}
+		<-gate.Entered // the worker is parked inside the appender with the first item
+		stopped := make(chan any, 1)
+		go func() { stopped <- vk.Catch(l.Stop) }()
+		time.Sleep(time.Duration(rapid.SampledFrom([]int{1, 5, 20}).Draw(t, "afterMS")) * time.Millisecond) // Stop is now waiting for the worker
+		pad := ""
+		if big {
+			pad = strings.Repeat("P", 30000)
+		}
+		returned, p := vk.Within(10*time.Second, func() {
+			if raw {
+				l.Write([]byte("id=777 " + pad + "\n"))
+			} else {
+				e := log.GetEvent()
+				e.Level, e.Time, e.Tag, e.Fields = log.InfoLevel, time.Unix(0, 0), "_c06", []log.Field{log.Int("id", 777), log.String("pad", pad)}
+				l.Append(e)
+			}
+		})
+		vk.Eval()
+		vk.Class("call-during-stop:" + policy)
+		vk.NonTrivial(fmt.Sprintf("call-during-stop/%s/%d/%v/%v", policy, prefill, raw, big))
+		close(gate.Release)
+		select {
+		case <-stopped:
+		case <-time.After(30 * time.Second):
+			vk.HardFail("c06-hang", map[string]any{"policy": policy}, "C06: Stop did not return after the appender was released")
+		}
+		if p != nil {
+			t.Fatalf("VERIF-VIOLATION C06: a log call issued while Stop was waiting for the appender panicked: %v", p)
+		}
+		if !returned {
+			vk.HardFail("c06-hang", map[string]any{"policy": policy, "buffered": prefill, "raw": raw, "big": big},
+				"C06: policy %s: a log call issued while another goroutine was inside Stop did not return while the appender stayed stalled (it waited for the appender)", policy)
+		}
+	})
+}
 
 // GateLayout is a harness layout plugin whose ToBytes parks until its gate is opened: it stalls
 // the worker of loggers that own their appenders (rolling-file logger), where no harness appender
